@@ -9,7 +9,7 @@
 (* in one transaction; then MinLen..MaxLen operations, each CommitTx or     *)
 (* Discard                                                                 *)
 (* (so: re-run after a failure, commit again, discard after commit,        *)
-(* discard then commit, ...), at most MaxFail of them with an injected     *)
+(* discard then commit, ...), MinFail..MaxFail of them with an injected    *)
 (* failure ("err") or crash ("crashed") at the k-th store operation of     *)
 (* that operation, for every k.                                            *)
 (*                                                                         *)
@@ -36,7 +36,7 @@
 (***************************************************************************)
 EXTENDS Txn, TLC, Json
 
-CONSTANTS MaxBr, MinLen, MaxLen, MaxFail
+CONSTANTS MaxBr, MinLen, MaxLen, MinFail, MaxFail
 
 VARIABLES scn, done
 gvars == <<st, run, budget, scn, done>>
@@ -56,7 +56,7 @@ OpSeqs(n) ==
   UNION { UNION { UNION {
     { [p \in 1..len |-> IF p \in F THEN Op(base[p], f[p][1], f[p][2]) ELSE Op(base[p], 0, "-")]
       : f \in Faults(n, base, F) }
-    : F \in {X \in SUBSET (1..len) : Cardinality(X) <= MaxFail} }
+    : F \in {X \in SUBSET (1..len) : Cardinality(X) >= MinFail /\ Cardinality(X) <= MaxFail} }
     : base \in [1..len -> Kinds] }
     : len \in MinLen..MaxLen }
 
